@@ -123,6 +123,39 @@ theorem parallelogram_is_source (i : Kin R) (s : R) (d c : Nat) (pose : Iso R) (
     SrcWrap.paraForward i s d c q = (Kin.para i s d c).forward q ∧ SrcWrap.paraLinks i s d c q = (Kin.para i s d c).links q :=
   ⟨paraInverse_eq .., paraInverseContinuing_eq .., paraInverse5dof_eq .., paraInverseContinuing5dof_eq .., paraForward_eq .., paraLinks_eq ..⟩
 
+/-- [G] the joint limits and the singularity report of a tool / base / frame / parallelogram wrapper, as the CURRENT source
+text defines them, are those of the robot it wraps (the model's `Kin.constraints`, `Kin.singularity`) -/
+theorem wrapper_reports_are_source (i : Kin R) (w : Iso R) (s : R) (d c : Nat) (q : J6 R) :
+    SrcWrap.toolConstraints i w = (Kin.tool i w).constraints ∧ SrcWrap.toolSingularity i w q = (Kin.tool i w).singularity q ∧
+    SrcWrap.baseConstraints i w = (Kin.base i w).constraints ∧ SrcWrap.baseSingularity i w q = (Kin.base i w).singularity q ∧
+    SrcWrap.frameConstraints i w = (Kin.frame i w).constraints ∧ SrcWrap.frameSingularity i w q = (Kin.frame i w).singularity q ∧
+    SrcWrap.paraConstraints i s d c = (Kin.para i s d c).constraints ∧
+    SrcWrap.paraSingularity i s d c q = (Kin.para i s d c).singularity q :=
+  ⟨toolConstraints_eq .., toolSingularity_eq .., baseConstraints_eq .., baseSingularity_eq .., frameConstraints_eq ..,
+   frameSingularity_eq .., paraConstraints_eq .., paraSingularity_eq ..⟩
+
+/-- [G] `KinematicsWithShape` as the CURRENT source text defines it is the model's `shape` node: each inverse entry point is
+the same entry point of the wrapped stack followed by the order-preserving collision filter; forward, link poses, limits and
+singularity are those of the wrapped stack -/
+theorem shape_is_source (i : Kin R) (col : J6 R → Bool) (pose : Iso R) (prev q : J6 R) (j6 : R) (l : List (J6 R)) :
+    SrcWrap.kwsRemoveCollisions col l = removeCollisions col l ∧
+    SrcWrap.kwsInverse i col pose = (Kin.shape i col).inverse pose ∧
+    SrcWrap.kwsInverseContinuing i col pose prev = (Kin.shape i col).inverseContinuing pose prev ∧
+    SrcWrap.kwsInverse5dof i col pose j6 = (Kin.shape i col).inverse5dof pose j6 ∧
+    SrcWrap.kwsInverseContinuing5dof i col pose prev = (Kin.shape i col).inverseContinuing5dof pose prev ∧
+    SrcWrap.kwsForward i col q = (Kin.shape i col).forward q ∧ SrcWrap.kwsLinks i col q = (Kin.shape i col).links q ∧
+    SrcWrap.kwsSingularity i col q = (Kin.shape i col).singularity q ∧
+    SrcWrap.kwsConstraints i col = (Kin.shape i col).constraints :=
+  ⟨kwsRemoveCollisions_eq .., kwsInverse_eq .., kwsInverseContinuing_eq .., kwsInverse5dof_eq .., kwsInverseContinuing5dof_eq ..,
+   kwsForward_eq .., kwsLinks_eq .., kwsSingularity_eq .., kwsConstraints_eq ..⟩
+
+/-- [G] the facade methods `collides`, `collision_details`, `near`, `non_colliding_offsets` of `KinematicsWithShape`, as the
+CURRENT source text defines them, are the body's methods on the same arguments: no gating by the robot's own mode, no
+re-ordering -/
+theorem shape_facade_is_source {α α1 α2 β : Type} (f1 : α → β) (f2 : α → α1 → β) (f3 : α → α1 → α2 → β) (a : α) (b : α1) (c : α2) :
+    SrcWrap.kwsCollides f1 a = f1 a ∧ SrcWrap.kwsCollisionDetails f1 a = f1 a ∧ SrcWrap.kwsNear f2 a b = f2 a b ∧
+    SrcWrap.kwsNonCollidingOffsets f3 a b c = f3 a b c := kwsFacade_eq f1 f2 f3 a b c
+
 end
 
 end Opw.Tie
